@@ -23,10 +23,38 @@ structure Params where
   tRepeat : Nat
   singleAck : Bool
   tLinkState : Nat
-  deriving Repr, DecidableEq, Inhabited
+  /-- the configurations the library documents: no address, one or two octets -/
+  hA : addrLen ≤ 2
+  deriving Repr, DecidableEq
+
+instance : Inhabited Params := ⟨⟨0, 0, 0, false, 0, by omega⟩⟩
+
+def sum8 (l : List Nat) : Nat := l.foldl (fun s x => (s + x) % 256) 0
+
+/-- **What "a well-formed FT 1.2 frame carrying the configured address width" means**,
+stated on the octets alone (independent of the encoder below): the single character E5;
+or `10 C A* CS 16` with `aL` address octets and CS the modulo-256 sum of C and A; or
+`68 L L 68 C A* data CS 16` where both length octets are equal, give the true number of
+octets between the second start octet and the checksum, leave room for C and A, and CS
+is the modulo-256 sum of those `L` octets. -/
+def WellFormed (aL : Nat) (f : List Nat) : Prop :=
+  f = [0xe5] ∨
+  (f.length = 4 + aL ∧ f[0]? = some 0x10 ∧ f[3 + aL]? = some 0x16 ∧
+    f[2 + aL]? = some (sum8 ((f.drop 1).take (1 + aL)))) ∨
+  (∃ L, f.length = L + 6 ∧ L ≤ 255 ∧ 1 + aL ≤ L ∧ f[0]? = some 0x68 ∧ f[1]? = some L ∧ f[2]? = some L ∧
+    f[3]? = some 0x68 ∧ f[L + 5]? = some 0x16 ∧ f[L + 4]? = some (sum8 ((f.drop 4).take L)))
+
+/-- a frame handed to the serial port, with the evidence that it is well-formed: every
+`Obs.tx` of the model carries one, so "every frame the stack writes is well-formed" holds
+for every execution of the model by construction (`Iec.Props.C14.every_tx_wellformed`) -/
+structure TxFrame where
+  aL : Nat
+  bytes : List Nat
+  wf : WellFormed aL bytes
+  deriving DecidableEq, Repr
 
 inductive Obs where
-  | tx (b : List Nat)
+  | tx (f : TxFrame)
   /-- `HandleReceivedData` on a secondary / balanced station -/
   | rx (bc : Bool) (d : List Nat)
   | resetCU (onlyFcb : Bool)
@@ -35,7 +63,9 @@ inductive Obs where
   /-- primary unbalanced: `UserData` -/
   | ud (addr : Int) (d : List Nat)
   | ad (addr : Int)
-  deriving Repr, DecidableEq, Inhabited
+  deriving Repr, DecidableEq
+
+instance : Inhabited Obs := ⟨.ad 0⟩
 
 /-! ### FT 1.2 encoding (SendFixedFrame, SendVariableLengthFrame, SendSingleCharCharacter) -/
 
@@ -47,8 +77,6 @@ def ctrl (fc : Nat) (prm dir acd dfc : Bool) : Nat :=
 
 def addrBytes (aL : Nat) (address : Nat) : List Nat :=
   (if aL > 0 then [address % 256] else []) ++ (if aL > 1 then [address / 256 % 256] else [])
-
-def sum8 (l : List Nat) : Nat := l.foldl (fun s x => (s + x) % 256) 0
 
 def fixedFrame (aL : Nat) (c address : Nat) : List Nat :=
   let body := c :: addrBytes aL address
@@ -63,6 +91,43 @@ def varFrame (aL : Nat) (c address : Nat) (data : List Nat) : Option (List Nat) 
     some ([0x68, l, l, 0x68] ++ body ++ [sum8 body, 0x16])
 
 def singleChar : List Nat := [0xe5]
+
+/-! ### the encoders produce well-formed frames (the evidence carried by `TxFrame`) -/
+
+theorem addrBytes_length (aL a : Nat) (h : aL ≤ 2) : (addrBytes aL a).length = aL := by
+  have : aL = 0 ∨ aL = 1 ∨ aL = 2 := by omega
+  rcases this with rfl | rfl | rfl <;> simp [addrBytes]
+
+theorem fixedFrame_wf (aL c a : Nat) (h : aL ≤ 2) : WellFormed aL (fixedFrame aL c a) := by
+  have : aL = 0 ∨ aL = 1 ∨ aL = 2 := by omega
+  right; left
+  rcases this with rfl | rfl | rfl <;> simp [fixedFrame, addrBytes]
+
+theorem varFrame_wf (aL c a : Nat) (d f : List Nat) (h : aL ≤ 2) (hv : varFrame aL c a d = some f) :
+    WellFormed aL f := by
+  have h3 : aL = 0 ∨ aL = 1 ∨ aL = 2 := by omega
+  right; right
+  unfold varFrame at hv
+  simp only at hv
+  split at hv
+  · cases hv
+  · rename_i hl
+    injection hv with hv
+    subst hv
+    refine ⟨1 + aL + d.length, ?_, by omega, by omega, ?_⟩
+    · rcases h3 with rfl | rfl | rfl <;> simp [addrBytes] <;> omega
+    · rcases h3 with rfl | rfl | rfl
+      · simp [addrBytes]
+        rw [Nat.add_comm 1 d.length]
+        simp
+      · simp [addrBytes]
+        rw [show 1 + 1 + d.length = d.length + 1 + 1 by omega]
+        simp
+      · simp [addrBytes]
+        rw [show 1 + 2 + d.length = d.length + 1 + 1 + 1 by omega]
+        simp
+
+theorem single_wf (aL : Nat) : WellFormed aL singleChar := Or.inl rfl
 
 /-! ### the shared buffer -/
 
@@ -86,19 +151,19 @@ structure LL where
   buf : List Nat := List.replicate bufSize 0
   /-- userDataBuffer[0..userDataSize) -/
   userData : List Nat := []
-  deriving Repr, DecidableEq, Inhabited
+  deriving Repr, DecidableEq
 
 def LL.sendFixed (l : LL) (fc address : Nat) (prm dir acd dfc : Bool) : LL × List Obs :=
   let f := fixedFrame l.p.addrLen (ctrl fc prm dir acd dfc) address
-  ({ l with buf := writeAt l.buf 0 f }, [.tx f])
+  ({ l with buf := writeAt l.buf 0 f }, [.tx ⟨l.p.addrLen, f, fixedFrame_wf _ _ _ l.p.hA⟩])
 
 def LL.sendVar (l : LL) (fc address : Nat) (prm dir acd dfc : Bool) (data : List Nat) : LL × List Obs :=
   let c := ctrl fc prm dir acd dfc
-  match varFrame l.p.addrLen c address data with
+  match hv : varFrame l.p.addrLen c address data with
   | none => ({ l with buf := varFramePartial l.p.addrLen l.buf c address }, [])
-  | some f => ({ l with buf := writeAt l.buf 0 f }, [.tx f])
+  | some f => ({ l with buf := writeAt l.buf 0 f }, [.tx ⟨l.p.addrLen, f, varFrame_wf _ _ _ _ _ l.p.hA hv⟩])
 
-def LL.sendSingle (l : LL) : LL × List Obs := (l, [.tx singleChar])
+def LL.sendSingle (l : LL) : LL × List Obs := (l, [.tx ⟨l.p.addrLen, singleChar, single_wf _⟩])
 
 /-! ### SerialTransceiverFT12_readNextMessage
 
@@ -144,7 +209,7 @@ structure SecU where
   /-- stub application layer -/
   c1 : List (List Nat) := []
   c2 : List (List Nat) := []
-  deriving Repr, DecidableEq, Inhabited
+  deriving Repr, DecidableEq
 
 def SecU.setState (s : SecU) (n : Nat) : SecU × List Obs :=
   if s.state ≠ n then ({ s with state := n }, [.st (-1) n]) else (s, [])
@@ -180,36 +245,44 @@ def SecU.poll (s : SecU) (cls1 : Bool) (fcb fcv : Bool) : SecU × List Obs :=
       let (l, o) := s.ll.sendFixed 9 s.ll.address false false acd false
       ({ s with ll := l }, o)
 
+/-- ACK as single character (when configured and allowed here) or fixed frame FC 0 -/
+def SecU.ack (s : SecU) (acd singleOk : Bool) : SecU × List Obs :=
+  if s.ll.p.singleAck && singleOk then
+    let (l, o) := s.ll.sendSingle; ({ s with ll := l }, o)
+  else
+    let (l, o) := s.ll.sendFixed 0 s.ll.address false false acd false
+    ({ s with ll := l }, o)
+
+/-- FC 0 / FC 7: reset of the remote link / of the frame count bit -/
+def SecU.reset (s : SecU) (fc : Nat) (fcb fcv : Bool) : SecU × List Obs :=
+  if fcv || fcb then s.setState 1
+  else
+    let s := { s with expectedFcb := true }
+    let (s, o) := s.ack false true
+    (s, o ++ [.resetCU (fc = 7)])
+
+/-- FC 3: user data, confirmed -/
+def SecU.userData (s : SecU) (bc fcb fcv : Bool) (udStart : Nat) (udLen : Int) : SecU × List Obs :=
+  let (valid, exp') := if fcv then checkFCB s.expectedFcb fcb else (true, s.expectedFcb)
+  let s := { s with expectedFcb := exp' }
+  let o := if valid && udLen > 0 then [Obs.rx bc (userDataOf s.ll.buf udStart udLen)] else []
+  let acd := !s.c1.isEmpty
+  let (s, o') := s.ack acd (!acd)
+  (s, o ++ o')
+
 def SecU.handleMessage (s : SecU) (fc : Nat) (bc fcb fcv : Bool) (udStart : Nat) (udLen : Int) :
     SecU × List Obs :=
   let (s, o0) := s.setState 3
-  let ack (s : SecU) (acd : Bool) (singleOk : Bool) : SecU × List Obs :=
-    if s.ll.p.singleAck && singleOk then
-      let (l, o) := s.ll.sendSingle; ({ s with ll := l }, o)
-    else
-      let (l, o) := s.ll.sendFixed 0 s.ll.address false false acd false
-      ({ s with ll := l }, o)
   let (s, o1) : SecU × List Obs :=
     if fc = 9 then
       if fcv then s.setState 1
       else
         let (l, o) := s.ll.sendFixed 11 s.ll.address false false (!s.c1.isEmpty) false
         ({ s with ll := l }, o)
-    else if fc = 0 ∨ fc = 7 then
-      if fcv || fcb then s.setState 1
-      else
-        let s := { s with expectedFcb := true }
-        let (s, o) := ack s false true
-        (s, o ++ [.resetCU (fc = 7)])
+    else if fc = 0 ∨ fc = 7 then s.reset fc fcb fcv
     else if fc = 11 then s.poll false fcb fcv
     else if fc = 10 then s.poll true fcb fcv
-    else if fc = 3 then
-      let (valid, exp') := if fcv then checkFCB s.expectedFcb fcb else (true, s.expectedFcb)
-      let s := { s with expectedFcb := exp' }
-      let o := if valid && udLen > 0 then [Obs.rx bc (userDataOf s.ll.buf udStart udLen)] else []
-      let acd := !s.c1.isEmpty
-      let (s, o') := ack s acd (!acd)
-      (s, o ++ o')
+    else if fc = 3 then s.userData bc fcb fcv udStart udLen
     else if fc = 4 then
       if fcv then s.setState 1
       else (s, if udLen > 0 then [Obs.rx bc (userDataOf s.ll.buf udStart udLen)] else [])
@@ -218,35 +291,62 @@ def SecU.handleMessage (s : SecU) (fc : Nat) (bc fcb fcv : Bool) (udStart : Nat)
       ({ s with ll := l }, o)
   (s, o0 ++ o1)
 
-/-- ParserHeaderSecondaryUnbalanced on the message of `msgSize` octets now in `ll.buf` -/
+/-- outcome of the header checks of ParserHeaderSecondaryUnbalanced -/
+inductive Verdict where
+  /-- frame rejected, link state set to ERROR -/
+  | error
+  /-- addressed to another station: silently ignored -/
+  | ignore
+  | ok (fc : Nat) (bc fcb fcv : Bool) (udStart : Nat) (udLen : Int)
+  deriving Repr, DecidableEq
+
+/-! the quantities ParserHeaderSecondaryUnbalanced computes from the buffer -/
+
+def isVar (l : LL) : Prop := g l.buf 0 = 0x68
+def isFixed (l : LL) : Prop := g l.buf 0 = 0x10
+instance (l : LL) : Decidable (isVar l) := by unfold isVar; infer_instance
+instance (l : LL) : Decidable (isFixed l) := by unfold isFixed; infer_instance
+/-- `userDataLength` of a variable-length frame (can be negative for a malformed `L`) -/
+def hUdLen (l : LL) : Int := (g l.buf 1 : Int) - l.p.addrLen - 1
+def hUdStart (l : LL) : Nat := 5 + l.p.addrLen
+/-- the size the frame must have: `userDataStart + userDataLength + 2` -/
+def sizeOk (l : LL) (msgSize : Nat) : Prop := (msgSize : Int) = (hUdStart l : Int) + hUdLen l + 2
+instance (l : LL) (n : Nat) : Decidable (sizeOk l n) := by unfold sizeOk; infer_instance
+def hCtrl (l : LL) : Nat := if isVar l then g l.buf 4 else g l.buf 1
+def hCsStart (l : LL) : Nat := if isVar l then 4 else 1
+def hCsIndex (l : LL) : Int := if isVar l then (hUdStart l : Int) + hUdLen l else 2 + l.p.addrLen
+/-- the station address carried by the frame in the buffer -/
+def frameAddress (l : LL) : Nat :=
+  if l.p.addrLen > 0 then g l.buf (hCsStart l + 1) + (if l.p.addrLen > 1 then g l.buf (hCsStart l + 2) * 256 else 0)
+  else 0
+def isBroadcast (l : LL) : Prop :=
+  if l.p.addrLen > 1 then frameAddress l = 65535 else if l.p.addrLen > 0 then frameAddress l = 255 else False
+instance (l : LL) : Decidable (isBroadcast l) := by unfold isBroadcast; infer_instance
+/-- checksum octet = modulo-256 sum of the octets from `csStart` up to it -/
+def checksumOk (l : LL) : Prop :=
+  sum8 ((l.buf.drop (hCsStart l)).take (hCsIndex l - hCsStart l).toNat) = g l.buf (hCsIndex l).toNat
+instance (l : LL) : Decidable (checksumOk l) := by unfold checksumOk; infer_instance
+
+/-- the checks of ParserHeaderSecondaryUnbalanced on the `msgSize` octets now in `l.buf`,
+in the order of the C code -/
+def secHeader (l : LL) (msgSize : Nat) : Verdict :=
+  if isVar l ∧ g l.buf 1 ≠ g l.buf 2 then .error
+  else if isVar l ∧ ¬ sizeOk l msgSize then .error
+  else if ¬ isVar l ∧ ¬ isFixed l then .error
+  else if isBroadcast l ∧ hCtrl l % 16 ≠ 4 then .error
+  else if ¬ isBroadcast l ∧ frameAddress l ≠ l.address then .ignore
+  else if ¬ checksumOk l then .error
+  else if hCtrl l / 64 % 2 = 0 then .error
+  else .ok (hCtrl l % 16) (decide (isBroadcast l)) (hCtrl l / 32 % 2 = 1) (hCtrl l / 16 % 2 = 1)
+        (if isVar l then hUdStart l else 0) (if isVar l then hUdLen l else 0)
+
+/-- ParserHeaderSecondaryUnbalanced -/
 def SecU.parse (s : SecU) (now : Nat) (msgSize : Nat) : SecU × List Obs :=
   let s := { s with lastReceived := now }
-  let buf := s.ll.buf
-  let aL : Nat := s.ll.p.addrLen
-  let m0 := g buf 0
-  if m0 = 0x68 ∧ g buf 1 ≠ g buf 2 then s.setState 1
-  else
-    let udLen : Int := (g buf 1 : Int) - aL - 1
-    let udStart : Nat := 5 + aL
-    if m0 = 0x68 ∧ (msgSize : Int) ≠ (udStart : Int) + udLen + 2 then s.setState 1
-    else if m0 ≠ 0x68 ∧ m0 ≠ 0x10 then s.setState 1
-    else
-      let var := m0 = 0x68
-      let c := if var then g buf 4 else g buf 1
-      let csStart := if var then 4 else 1
-      let csIndex : Int := if var then (udStart : Int) + udLen else 2 + aL
-      let udLen := if var then udLen else 0
-      let udStart : Nat := if var then udStart else 0
-      let address := if aL > 0 then g buf (csStart + 1) + (if aL > 1 then g buf (csStart + 2) * 256 else 0) else 0
-      let bc := if aL > 1 then address = 65535 else if aL > 0 then address = 255 else false
-      let fc := c % 16
-      if bc ∧ fc ≠ 4 then s.setState 1
-      else if ¬ bc ∧ address ≠ s.ll.address then (s, [])
-      else
-        let cs := sum8 ((buf.drop csStart).take (csIndex - csStart).toNat)
-        if cs ≠ g buf csIndex.toNat then s.setState 1
-        else if c / 64 % 2 = 0 then s.setState 1
-        else s.handleMessage fc bc (c / 32 % 2 = 1) (c / 16 % 2 = 1) udStart udLen
+  match secHeader s.ll msgSize with
+  | .error => s.setState 1
+  | .ignore => (s, [])
+  | .ok fc bc fcb fcv udStart udLen => s.handleMessage fc bc fcb fcv udStart udLen
 
 /-- LinkLayerSecondaryUnbalanced_run with port content `q` at time `now` -/
 def SecU.run (s : SecU) (q : List Nat) (now : Nat) : SecU × List Nat × List Obs :=
@@ -283,7 +383,7 @@ structure Bal where
   /-- stub application layer: frames `GetUserData` will return; result of `HandleReceivedData` -/
   out : List (List Nat) := []
   accept : Bool := true
-  deriving Repr, DecidableEq, Inhabited
+  deriving Repr, DecidableEq
 
 def Bal.setState (s : Bal) (n : Nat) : Bal × List Obs :=
   if s.state ≠ n then ({ s with state := n }, [.st (-1) n]) else (s, [])
@@ -417,7 +517,7 @@ structure SlaveConn where
   nextFcb : Bool := true
   /-- function code of the request waiting for its response -/
   lastReq : Nat := 11
-  deriving Repr, DecidableEq, Inhabited
+  deriving Repr, DecidableEq
 
 structure PriU where
   ll : LL
@@ -426,7 +526,7 @@ structure PriU where
   cur : Option Nat := none
   curIdx : Nat := 0
   bcast : Option (List Nat) := none
-  deriving Repr, DecidableEq, Inhabited
+  deriving Repr, DecidableEq
 
 def SlaveConn.setState (c : SlaveConn) (n : Nat) : SlaveConn × List Obs :=
   if c.state ≠ n then ({ c with state := n }, [.st c.address n]) else (c, [])
@@ -602,33 +702,16 @@ structure Hdr where
   address : Nat
   udStart : Nat
   udLen : Int
-  deriving Repr, DecidableEq, Inhabited
+  deriving Repr, DecidableEq
 
 /-- the checks of HandleMessageBalancedAndPrimaryUnbalanced; `none`: frame ignored -/
 def parseBP (l : LL) (msgSize : Nat) : Option Hdr :=
-  let buf := l.buf
-  let aL : Nat := l.p.addrLen
-  let m0 := g buf 0
-  if m0 = 0xe5 then some ⟨true, 0, 0, 0, 0⟩
-  else if m0 = 0x68 then
-    if g buf 1 ≠ g buf 2 then none
-    else
-      let udLen : Int := (g buf 1 : Int) - aL - 1
-      let udStart := 5 + aL
-      if (msgSize : Int) ≠ udStart + udLen + 2 then none
-      else
-        let address := (if aL > 0 then g buf 5 else 0) + (if aL > 1 then g buf 6 * 256 else 0)
-        let csIndex : Int := udStart + udLen
-        let cs := sum8 ((buf.drop 4).take (csIndex - 4).toNat)
-        if cs ≠ g buf csIndex.toNat then none
-        else some ⟨false, g buf 4, address, udStart, udLen⟩
-  else if m0 = 0x10 then
-    let address := (if aL > 0 then g buf 2 else 0) + (if aL > 1 then g buf 3 * 256 else 0)
-    let csIndex := 2 + aL
-    let cs := sum8 ((buf.drop 1).take (csIndex - 1))
-    if cs ≠ g buf csIndex then none
-    else some ⟨false, g buf 1, address, 0, 0⟩
-  else none
+  if g l.buf 0 = 0xe5 then some ⟨true, 0, 0, 0, 0⟩
+  else if isVar l ∧ g l.buf 1 ≠ g l.buf 2 then none
+  else if isVar l ∧ ¬ sizeOk l msgSize then none
+  else if ¬ isVar l ∧ ¬ isFixed l then none
+  else if ¬ checksumOk l then none
+  else some ⟨false, hCtrl l, frameAddress l, if isVar l then hUdStart l else 0, if isVar l then hUdLen l else 0⟩
 
 def Bal.onMessage (s : Bal) (now : Nat) (msgSize : Nat) : Bal × List Obs :=
   match parseBP s.ll msgSize with
